@@ -80,7 +80,7 @@ def motion(rnd, scale):
 
 
 
-CHORDS = [0.5, 1.0, 2.5, 10.0, 50.0]
+CHORDS = [0.5, 1.0, 2.5, 10.0, 50.0, 2000.0]        # the last one only in the seeded random configurations
 LIVELOCK = {'m': 'airfoil', 'op': 'livelock', 'wd': 3000, 'xl': 0, 'xn': 40,
             'pts': [[-20, 0], [20, -6], [60, 0], [60, 10], [13, 10], [13, 5], [8, 5], [8, 6], [12, 6], [12, 10], [-20, 10]]}
 
@@ -151,11 +151,11 @@ def expand_c10(cfg):
 
 
 def gen_c10_random(rnd, tier):
-    n = 4 if tier == 'quick' else 60
+    n = 8 if tier == 'quick' else 80
     out = []
     methods = ['fit', 'trace', 'converge', 'const', 'intersect', 'ransac']
     for k in range(n):
-        cfg = {'m': 'airfoil', 'op': 'config', 'chord': rnd.randint(0, 4), 'camber': rnd.choice([1, 3, 4, 6, 7]), 'thick': rnd.choice([5, 6, 7, 8]),
+        cfg = {'m': 'airfoil', 'op': 'config', 'chord': rnd.randint(0, 5), 'camber': rnd.choice([1, 3, 4, 6, 7]), 'thick': rnd.choice([5, 6, 7, 8]),
                'le': rnd.choice(methods), 'te': rnd.choice(methods), 'orient': rnd.choice(['tmax', 'dir']),
                'face': rnd.choice(['upper', 'detect']), 'nside': rnd.choice([120, 240, 320]), 'open': False}
         out.append(expand_c10(cfg))
